@@ -13,6 +13,9 @@ namespace vf
 inline std::atomic<bool> g_virtual{false};
 inline std::atomic<uint64_t> g_vnow{1700000000ull * 1000000000ull};
 inline std::atomic<uint64_t> g_vreads{0};
+// called at the start of every virtual CLOCK_REALTIME read (mode S): lets the scheduler place operations of other
+// threads right before a clock read of the backend (a window that has no call-out of its own)
+inline void (*g_clock_read_hook)() = nullptr;
 inline uint64_t vclock_peek() { return g_vnow.load(std::memory_order_relaxed); }
 inline void vclock_jump(uint64_t ns) { g_vnow.fetch_add(ns, std::memory_order_relaxed); }
 inline uint64_t real_now_ns()
@@ -34,6 +37,7 @@ extern "C" int clock_gettime(clockid_t id, struct timespec* ts) noexcept
 {
   if (id == CLOCK_REALTIME && vf::g_virtual.load(std::memory_order_relaxed))
   {
+    if (vf::g_clock_read_hook) vf::g_clock_read_hook();
     uint64_t const v = vf::g_vnow.fetch_add(1, std::memory_order_relaxed) + 1;
     vf::g_vreads.fetch_add(1, std::memory_order_relaxed);
     ts->tv_sec = static_cast<time_t>(v / 1000000000ull);
